@@ -235,8 +235,60 @@ fn popcnt_wide_huge(ctx: &mut Ctx) -> CheckResult {
     Ok(())
 }
 
+/// bincode round trips of values whose payload exceeds the 1 MiB that serde pre-allocates for
+/// sequences: the deserialized value must equal the original, answer alike and (C14) not retain
+/// more heap than the original
+fn big_roundtrips(ctx: &mut Ctx, space: bool) -> CheckResult {
+    use crate::alloc::live;
+    let mut r = crate::util::Rng::new(99);
+    // 4.5 M quaternary symbols (1.1 MiB of lines), 9.5 M bits (1.2 MiB)
+    let q: Vec<u8> = (0..4_500_003usize).map(|_| (r.next_u64() & 3) as u8).collect();
+    let bits: Vec<bool> = (0..9_500_011usize).map(|i| r.next_u64() % 7 == 0 || i % 4099 == 0).collect();
+    macro_rules! rt {
+        ($name:expr, $ty:ty, $build:expr, $probe:expr) => {{
+            note("roundtrip", 0, 0, 0);
+            let before = live();
+            let v: $ty = $build;
+            let h0 = live().saturating_sub(before);
+            let bytes = bincode::serialize(&v).map_err(|e| crate::runner::Failure::new(format!("{}: serialize failed: {e}", $name)))?;
+            let before = live();
+            let w: $ty = match bincode::deserialize(&bytes) {
+                Ok(w) => w,
+                Err(e) => fail!("{}: deserialize of its own serialization ({} bytes) failed: {e}", $name, bytes.len()),
+            };
+            let h1 = live().saturating_sub(before);
+            ctx.q();
+            ensure!(w == v, "{}: deserialized value != original", $name);
+            let again = bincode::serialize(&w).map_err(|e| crate::runner::Failure::new(format!("{}: re-serialize failed: {e}", $name)))?;
+            ensure!(again == bytes, "{}: serialize(deserialize(bytes)) != bytes", $name);
+            let probe: fn(&$ty) -> Vec<Option<usize>> = $probe;
+            ensure!(probe(&w) == probe(&v), "{}: the deserialized value answers differently", $name);
+            if space && crate::alloc::installed() {
+                ensure!(h1 as f64 <= 1.02 * h0 as f64 + 4096.0, "{}: the deserialized copy retains {} heap bytes, the original {} (n is above serde's 1 MiB pre-allocation cap)", $name, h1, h0);
+            }
+        }};
+    }
+    rt!("QVector (4.5 M symbols)", QVector, q.iter().copied().collect(), |v| vec![Some(v.len()), v.get(4_500_002).map(|x| x as usize), v.get(4_194_304).map(|x| x as usize)]);
+    rt!("RSQVector256 (4.5 M symbols)", RSQVector256, q.iter().copied().collect(), |v| vec![v.rank(2, 4_400_000), v.select(1, 1_000_000), v.select(3, 1_100_000), v.occs(0)]);
+    rt!("QWT512<u8> (4.5 M symbols)", qwt::QWT512<u8>, q.iter().copied().collect(), |v| vec![v.rank(2, 4_400_000), v.select(1, 1_000_000), v.get(4_500_000).map(|x| x as usize)]);
+    rt!("BitVector (9.5 M bits)", BitVector, bits.iter().copied().collect(), |v| vec![Some(v.len()), Some(v.count_ones()), v.get(9_500_010).map(|x| x as usize)]);
+    rt!("RSWide (9.5 M bits)", RSWide, RSWide::new(bits.iter().copied().collect()), |v| vec![v.rank1(9_400_000), v.select1(1_000_000), v.select0(7_000_000)]);
+    rt!("RSNarrow (9.5 M bits)", RSNarrow, RSNarrow::new(bits.iter().copied().collect()), |v| vec![v.rank1(9_400_000), v.select1(1_000_000), v.select0(7_000_000)]);
+    rt!("DArray<true> (9.5 M bits)", DArray<true>, bits.iter().copied().collect(), |v| vec![v.select1(1_000_000), v.select0(7_000_000), Some(v.len())]);
+    rt!("WT<u8> (4.5 M symbols)", qwt::WT<u8>, q.iter().copied().collect(), |v| vec![v.rank(2, 4_400_000), v.select(1, 1_000_000)]);
+    Ok(())
+}
+fn big_roundtrips_eq(ctx: &mut Ctx) -> CheckResult {
+    big_roundtrips(ctx, false)
+}
+fn big_roundtrips_space(ctx: &mut Ctx) -> CheckResult {
+    big_roundtrips(ctx, true)
+}
+
 pub fn probes_for(id: &str) -> Vec<Probe> {
     match id {
+        "C11" => vec![Probe { name: "roundtrip-above-1MiB", run: big_roundtrips_eq, quick: true }],
+        "C14" => vec![Probe { name: "roundtrip-retained-heap", run: big_roundtrips_space, quick: true }],
         "C01" => vec![Probe { name: "qwt256-u8-2^27", run: qwt_long, quick: true }],
         "C05" => vec![Probe { name: "rsqvector256-periodic-2^27", run: quad_256, quick: true }, Probe { name: "rsqvector512-periodic-2^28", run: quad_512, quick: true }],
         "C06" => vec![Probe { name: "rsnarrow-sparse-2^32", run: narrow_sparse, quick: false }, Probe { name: "rswide-sparse-2^32", run: wide_sparse, quick: false }],
